@@ -319,4 +319,7 @@ def _controls(V, wn, syms, o):
             wn.add_control('ctl_speed', Control(cc, ControlAction(pu1, 'base_speed', num('ct_speed', 0.2, 2, 0.9))))
         c4 = TimeOfDayCondition(wn, Comparison.ge, 0, repeat=True)
         c4._threshold = (o.get('clock_thresholds') or (15 * 3600 + 1800, 6 * 3600))[1]
+        if o.get('clock_once'):
+            # a single timed trigger (documented constructor arguments repeat=False, first_day)
+            c4._repeat, c4._first_day = False, int(o['clock_once'])
         wn.add_control('rule2', Rule(c4, [ControlAction(tcv, 'status', LinkStatus.Open)], None, priority=ControlPriority(2), name='rule2'))
